@@ -330,7 +330,7 @@ def _last_bytes(ctx):
     if notes:
         rep.undecided('R20.3', 'last_bytes', 'inexact: %s' % notes)
         return
-    rep.count('last_bytes paths', len(outcomes), floor=3)
+    rep.count('last_bytes paths', len(outcomes), floor=1)
     for o in outcomes:
         assumed = dict(o.assumptions)
         fails = bool(assumed.get(RAISES))
